@@ -21,6 +21,11 @@ CHECKS = {
          "DESIGN.md §4 C08",
          "For 39 base programs covering every statement kind (plus 8 with diagnostics) every single deviation - 5 single-line trivia at every ws slot, 8 at every mws slot, case flip of every mnemonic/directive/register/hex literal/keyword, whole-file CRLF and leading/trailing trivia - and, in thorough, every pair of deviations at most 6 terminals apart is assembled and its bytes, symbol table and normalised diagnostics compared with the base. Exhaustive for deviation bound 1 (quick) / 2 (thorough).",
          "Trivia slots come from the harness grammar (read off the parser); literals and strings are atomic; the slot after a prefix minus is excluded because `- x` is the scope identifier `-` in mos's grammar (see DESIGN.md false alarms)."),
+ "C02": ("exploration",
+         "bounded-exhaustive program enumeration with a fixed-point certificate check of the implementation's own output",
+         "DESIGN.md §4 C02",
+         "All statement sequences up to length 4 (quick) / 5 (thorough) over 27 items placed at the zero-page boundary, all 3-level scoping shapes x 10 path forms, and all 1-3 segment configurations with cross references are assembled by the real multi-pass code generator; every successful build is certified by an independent walker: labels and block start/end symbols equal the cursor, every statement's bytes equal the ISA/evaluator result under the implementation's own final symbols, nothing unexplained in the image, segments.x.start/end and the VICE export agree. Sound for programs with several fixed points.",
+         "Small-scope: two label names, bounded length; the walker's scoping resolver (innermost-outward, super, dotted) and ISA model are trusted; programs with constructs outside the walker are counted, not judged."),
 }
 
 NOT_YET = {
